@@ -304,6 +304,88 @@ theorem session_batch_glue (k : Codec) (server : List UInt8 → List UInt8 × Na
       ((match cfg.timestamp with | some t => some t | none => conn.genTimestamp).map Int64.toInt)⟩ :=
   (batch_glue k server ty stmts rows _ _ cfg conn f h hlen).1
 
+/-! ### `Session::batch`: the session's own guard on the number of statements (`session.rs:1039-1045`) -/
+
+/-- **session_batch_guard.** `Session::batch` answers `TooManyQueriesInBatchStatement(n)` — with the true count — exactly
+when the batch has more than 65535 statements, whatever the statements, rows and configuration are; and on every batch of
+at most 65535 statements (65535 included) the guard is transparent: the outcome is the one of the layers behind it. -/
+theorem session_batch_guard (server : List UInt8 → List UInt8 × Nat) (ty : BatchType) (stmts : List GlueStmt)
+    (rows : List (List RawVal)) (cfg : StmtConfig) (sp : Option ExecProfile) (sd : ExecProfile) (conn : ConnCtx) :
+    (65535 < stmts.length →
+      sessionBatch server ty stmts rows cfg sp sd conn = .error (.tooManyQueries stmts.length)) ∧
+    (stmts.length ≤ 65535 →
+      sessionBatch server ty stmts rows cfg sp sd conn =
+        (match sessionBatchBody server ty stmts rows cfg sp sd conn with
+         | .ok b => .ok b
+         | .error e => .error (.frame e))) ∧
+    (∀ n, sessionBatch server ty stmts rows cfg sp sd conn = .error (.tooManyQueries n) →
+      n = stmts.length ∧ 65535 < stmts.length) := by
+  refine ⟨fun h => by simp [sessionBatch, h], fun h => ?_, fun n h => ?_⟩
+  · have : ¬ stmts.length > 65535 := by omega
+    unfold sessionBatch
+    rw [if_neg this]
+    cases sessionBatchBody server ty stmts rows cfg sp sd conn <;> rfl
+  · unfold sessionBatch at h
+    split at h
+    · rename_i hg
+      simp only [Except.error.injEq, SessionBatchErr.tooManyQueries.injEq] at h
+      exact ⟨h.symm, hg⟩
+    · split at h <;> simp at h
+
+/-- **session_batch_guard_sound.** The guard refuses nothing a v4 BATCH could carry: whenever it fires, the serializer
+behind it (`Batch::do_serialize`'s `try_into::<u16>`) refuses the same batch too.  So with `session_batch_guard`:
+`Session::batch` sends a frame exactly when `Connection::batch_with_consistency` alone would, and then the same one. -/
+theorem session_batch_guard_sound (server : List UInt8 → List UInt8 × Nat) (ty : BatchType) (stmts : List GlueStmt)
+    (rows : List (List RawVal)) (cfg : StmtConfig) (sp : Option ExecProfile) (sd : ExecProfile) (conn : ConnCtx)
+    (h : 65535 < stmts.length) :
+    sessionBatchBody server ty stmts rows cfg sp sd conn = .error .batchTooManyStatements := by
+  simp [sessionBatchBody, batchRequestBody, encodeBatchA, prepareBatch, h]
+
+theorem session_batch_sends_iff (server : List UInt8 → List UInt8 × Nat) (ty : BatchType) (stmts : List GlueStmt)
+    (rows : List (List RawVal)) (cfg : StmtConfig) (sp : Option ExecProfile) (sd : ExecProfile) (conn : ConnCtx)
+    (b : List UInt8) :
+    sessionBatch server ty stmts rows cfg sp sd conn = .ok b ↔
+      sessionBatchBody server ty stmts rows cfg sp sd conn = .ok b := by
+  by_cases hg : 65535 < stmts.length
+  · rw [(session_batch_guard server ty stmts rows cfg sp sd conn).1 hg,
+      session_batch_guard_sound server ty stmts rows cfg sp sd conn hg]
+    simp
+  · rw [(session_batch_guard server ty stmts rows cfg sp sd conn).2.1 (by omega)]
+    cases sessionBatchBody server ty stmts rows cfg sp sd conn <;> simp
+
+/-- **session_batch_whole.** What `Session::batch` puts on the wire is the caller's whole batch: if it sends at all, the
+batch has at most 65535 statements, one row per statement, and the frame reads back to all of them in order (nothing
+dropped, nothing truncated) with the session-level consistency / serial consistency / timestamp. -/
+theorem session_batch_whole (k : Codec) (server : List UInt8 → List UInt8 × Nat) (ty : BatchType) (stmts : List GlueStmt)
+    (rows : List (List RawVal)) (cfg : StmtConfig) (sp : Option ExecProfile) (sd : ExecProfile) (conn : ConnCtx)
+    (b f : List UInt8) (hb : sessionBatch server ty stmts rows cfg sp sd conn = .ok b)
+    (h : encodeFrameOf k (.ok b) Generated.requestOpcode_Batch none cfg.tracing = .ok f) (hlen : f.length - 9 < 2 ^ 32) :
+    stmts.length ≤ 65535 ∧ stmts.length = rows.length ∧
+    parseReq false f = some ⟨false, cfg.tracing, 0, .batch ty
+      ((((prepareBatch server stmts rows).map stmtWithCtx).map Prod.fst).map viewStmt |>.zip rows)
+      (sessionConsistency cfg (chosenProfile sp sd)) (sessionSerial cfg (chosenProfile sp sd))
+      ((match cfg.timestamp with | some t => some t | none => conn.genTimestamp).map Int64.toInt)⟩ := by
+  have hb' := (session_batch_sends_iff server ty stmts rows cfg sp sd conn b).1 hb
+  have hle : stmts.length ≤ 65535 := by
+    by_cases hg : 65535 < stmts.length
+    · rw [session_batch_guard_sound server ty stmts rows cfg sp sd conn hg] at hb'
+      simp at hb'
+    · omega
+  rw [← hb'] at h
+  have hg := batch_glue k server ty stmts rows _ _ cfg conn f h hlen
+  exact ⟨hle, hg.2.1, hg.1⟩
+
+-- non-vacuity: 65536 statements are refused with the true count, and a small batch passes the guard and is sent
+example (n : Nat) (hn : 65535 < n) :
+    sessionBatch (fun _ => ([], 0)) .unlogged (List.replicate n (.unprepared [0x78])) [] ⟨none, none, none, false⟩
+      none ⟨.one, none⟩ ⟨.one, none, false⟩ = .error (.tooManyQueries n) := by
+  have := (session_batch_guard (fun _ => ([], 0)) .unlogged (List.replicate n (.unprepared [0x78])) []
+    ⟨none, none, none, false⟩ none ⟨.one, none⟩ ⟨.one, none, false⟩).1 (by rw [List.length_replicate]; exact hn)
+  rwa [List.length_replicate] at this
+example : (match sessionBatch (fun _ => ([], 0)) .unlogged [.unprepared [0x78], .prepared [1] 1] [[], [.null]]
+      ⟨none, none, none, false⟩ none ⟨.one, none⟩ ⟨.one, none, false⟩ with
+    | .ok _ => true | _ => false) = true := by decide +kernel
+
 -- non-vacuity: statement unset -> the profile's LOCAL_SERIAL; explicit None -> none; statement's own profile wins over the session's
 example : sessionSerial ⟨none, none, none, false⟩ (chosenProfile none ⟨.localQuorum, some .localSerial⟩) = some .localSerial ∧
     sessionSerial ⟨none, some none, none, false⟩ (chosenProfile none ⟨.localQuorum, some .localSerial⟩) = none ∧
